@@ -362,3 +362,16 @@ def c07_plugin_error(case, rr, rule=None, doc_regex=None):
     if rule and f"Plugin id '{rule}'" not in errs:
         return False
     return not doc_regex or bool(re.search(doc_regex, obs.get("doc") or "", re.S))
+
+
+@matcher
+def c06_lines(case, rr, rule=None, line_regex=None):
+    """the verdict differs only on lines of the given shape"""
+    import re
+
+    obs = rr.get("observed") or {}
+    if case["params"].get("rule") != rule:
+        return False
+    lines = (obs.get("doc") or "").split("\n")
+    diff = set(obs.get("reported") or []) ^ set(obs.get("documented") or [])
+    return bool(diff) and all(0 < ln <= len(lines) and re.search(line_regex, lines[ln - 1]) for ln in diff)
